@@ -83,6 +83,13 @@ class Filter(collections.namedtuple('Filter', ['property', 'op', 'value'])):
         if isinstance(stix_obj_property, datetime) and \
                 isinstance(self.value, str):
             filter_value = stix2.utils.parse_into_datetime(self.value)
+        elif isinstance(stix_obj_property, datetime) and \
+                isinstance(self.value, (list, tuple, set, frozenset)):
+            # (the "in" operator): convert the timestamp strings among them
+            filter_value = [
+                stix2.utils.parse_into_datetime(v) if isinstance(v, str) else v
+                for v in self.value
+            ]
         else:
             filter_value = self.value
 
